@@ -44,12 +44,19 @@
 #define IS_DTLS_MODE (MODE_HDR == 13)
 #define LIMBO (g_in.hasSid && g_in.ticketState == SESS_TICKET_STATE_IN_LIMBO && \
                (gh.hsstate_at_entry == SSL_HS_CERTIFICATE || (gh.hsstate_at_entry == SSL_HS_SERVER_KEY_EXCHANGE && (gh.flags_at_entry & (SSL_FLAGS_ANON_CIPHER | SSL_FLAGS_PSK_CIPHER)))))
+/* bytes of the protected record that precede the plaintext on the wire (GCM explicit nonce) */
+#ifdef MODE_AEAD
+# define WIRE_SKIP (MODE_NONCE ? 8 : 0)
+#else
+# define WIRE_SKIP 0
+#endif
 #define POSTS(P) \
     P(C01_app_data_only_when_read_secure,      IMPLIES(RET == SSL_PROCESS_DATA, ENTRY_SECURE)) \
     P(C01_app_data_only_from_authenticated_record, IMPLIES(RET == SSL_PROCESS_DATA, AUTH_OK)) \
     P(C01_app_data_only_after_handshake_done,  IMPLIES(RET == SSL_PROCESS_DATA, gh.hsstate_at_entry == SSL_HS_DONE || gh.hsstate_at_entry == SSL_HS_SERVER_HELLO)) \
     P(C01_app_data_leaves_handshake_state,     IMPLIES(RET == SSL_PROCESS_DATA, g_ssl.hsState == gh.hsstate_at_entry && gh.hs_calls == 0)) \
     P(C01_app_data_cursor_in_receive_buffer,   IMPLIES(RET == SSL_PROCESS_DATA, IN_BUF(g_in.len) && g_len <= g_size)) \
+    P(C02_delivered_bytes_are_the_authenticated_record, IMPLIES(RET == SSL_PROCESS_DATA && g_in.k < g_len, g_buf[g_in.k] == g_in.buf[(gh.dec_off + WIRE_SKIP + g_in.k) % BUFN] && gh.dec_off + WIRE_SKIP + g_len <= BUFN)) \
     P(C02_failed_decrypt_yields_nothing,       IMPLIES(gh.dec_failed, RET != SSL_PROCESS_DATA && RET != SSL_ALERT && gh.hs_calls == 0 && gh.act_calls == 0 && (g_ssl.err != SSL_ALERT_NONE || IS_DTLS_MODE))) \
     P(C02_failed_mac_yields_nothing,           IMPLIES(gh.mac_failed, RET != SSL_PROCESS_DATA && RET != SSL_ALERT && gh.hs_calls == 0 && gh.act_calls == 0 && g_ssl.err == SSL_ALERT_BAD_RECORD_MAC)) \
     P(C02_bad_padding_yields_nothing_same_alert, IMPLIES(gh.dec_ok && ENTRY_SECURE && !AEAD_MODE && !gh.pad_ok, RET != SSL_PROCESS_DATA && RET != SSL_ALERT && gh.hs_calls == 0 && gh.act_calls == 0 && g_ssl.err == SSL_ALERT_BAD_RECORD_MAC)) \
